@@ -25,6 +25,9 @@ def run(chk):
     r09c(chk)
     r09d(chk)
     r09e(chk)
+    from .c10 import r10e
+
+    r10e(chk, 'R09.f')
 
 
 # ---------------------------------------------------------------------------
